@@ -187,6 +187,8 @@ Pinned(cfg) == IF cfg.alg # "none" THEN cfg.alg
 (***************************************************************************)
 HdrRejectCls == {"notjson", "arr", "scalar", "strjson", "nulljson", "notb64", "len1mod4", "empty", "emptyobj"}
 PayRejectCls == {"notjson", "notb64", "len1mod4", "empty"}
+\* "objnc": an object whose segment is not canonically encoded (the unused bits of the last character are not
+\* zero) - neither the properties nor RFC 7515 say whether such a segment is taken: status "any"
 PayOkCls == {"obj", "objws"}
 HdrOkCls == {"obj", "objws"}
 NonStringAlg == {"#int", "#null", "#bool", "#arr", "#obj", "#real"}
